@@ -711,8 +711,11 @@ class ManifestRecursiveLoader:
                 for d in skip_dirs:
                     dirnames.remove(d)
                 # if we are planning to recur, record this dir
+                # (the top directory comes with a trailing slash
+                # that its children's dirname() does not have)
                 if dirnames:
-                    directory_ids[dirpath] = parent_dir_ids + [dir_id]
+                    directory_ids[dirpath.rstrip(os.sep) or dirpath] = (
+                        parent_dir_ids + [dir_id])
 
                 yield (dirpath, relpath, dirnames, filenames, dirdict)
 
@@ -1105,7 +1108,8 @@ class ManifestRecursiveLoader:
                 dirnames.remove(d)
             # if we are planning to recur, record this dir
             if dirnames:
-                directory_ids[dirpath] = parent_dir_ids + [dir_id]
+                directory_ids[dirpath.rstrip(os.sep) or dirpath] = (
+                    parent_dir_ids + [dir_id])
 
             # check for unregistered Manifest
             for mname in manifest_filenames:
@@ -1246,7 +1250,8 @@ class ManifestRecursiveLoader:
                 dirnames.remove(d)
             # if we are planning to recur, record this dir
             if dirnames:
-                directory_ids[dirpath] = parent_dir_ids + [dir_id]
+                directory_ids[dirpath.rstrip(os.sep) or dirpath] = (
+                    parent_dir_ids + [dir_id])
 
             new_entries = []
             for f in filenames:
